@@ -154,6 +154,11 @@ impl XmlReader {
         }
 
         let xml = &file.xml;
+        if max_element_depth(xml) > MAX_ELEMENT_DEPTH {
+            return Err(WriterError::new(format!(
+                "Unable to parse file {file_name}: elements are nested more than {MAX_ELEMENT_DEPTH} levels deep"
+            )));
+        }
         let doc = roxmltree::Document::parse(xml)
             .map_err(|e| WriterError::new(format!("Unable to parse file {file_name}: {e}")))?;
         let scope = rust_doc.enter_file(&doc);
@@ -279,6 +284,63 @@ impl XmlReader {
 
         Self::read_file_into(file, schema_location, files, doc)
     }
+}
+
+/// The XML parser recurses once per nesting level: a document that is nested tens of thousands of levels deep (less
+/// than 100 kB of text) overflows the stack. No schema or WSDL comes anywhere near this limit.
+const MAX_ELEMENT_DEPTH: usize = 1024;
+
+/// The deepest nesting of start tags in an XML text, counted without building anything. Comments, CDATA sections,
+/// processing instructions and declarations are skipped; text that is not well-formed gives some number, and the
+/// parser reports what is wrong with it.
+fn max_element_depth(xml: &str) -> usize {
+    fn skip_past(bytes: &[u8], from: usize, end: &[u8]) -> usize {
+        bytes[from..]
+            .windows(end.len())
+            .position(|w| w == end)
+            .map_or(bytes.len(), |p| from + p + end.len())
+    }
+
+    let bytes = xml.as_bytes();
+    let (mut depth, mut max, mut i) = (0usize, 0usize, 0usize);
+    while i < bytes.len() {
+        if bytes[i] != b'<' {
+            i += 1;
+            continue;
+        }
+        let rest = &bytes[i..];
+        if rest.starts_with(b"<!--") {
+            i = skip_past(bytes, i + 4, b"-->");
+        } else if rest.starts_with(b"<![CDATA[") {
+            i = skip_past(bytes, i + 9, b"]]>");
+        } else if rest.starts_with(b"<?") {
+            i = skip_past(bytes, i + 2, b"?>");
+        } else if rest.starts_with(b"<!") {
+            i = skip_past(bytes, i + 2, b">");
+        } else if rest.starts_with(b"</") {
+            depth = depth.saturating_sub(1);
+            i = skip_past(bytes, i + 2, b">");
+        } else {
+            // a start tag ends at the first `>` outside a quoted attribute value
+            let mut quote = None;
+            let mut j = i + 1;
+            while j < bytes.len() {
+                match (quote, bytes[j]) {
+                    (None, b'"' | b'\'') => quote = Some(bytes[j]),
+                    (Some(q), b) if b == q => quote = None,
+                    (None, b'>') => break,
+                    _ => {}
+                }
+                j += 1;
+            }
+            if j < bytes.len() && bytes[j - 1] != b'/' {
+                depth += 1;
+                max = max.max(depth);
+            }
+            i = j + 1;
+        }
+    }
+    max
 }
 
 #[cfg(test)]
